@@ -1498,11 +1498,9 @@ namespace adept {
       ADEPT_STATIC_ASSERT(!(std::numeric_limits<Type>::is_integer
 	    && IsActive), CANNOT_CREATE_ACTIVE_ARRAY_OF_INTEGERS);
 
-      if (storage_) {
-	storage_->remove_link();
-	storage_ = 0;
-      }
-      // Check requested dimensions
+      // Check requested dimensions before releasing the existing
+      // data, so that the matrix is left intact if an exception is
+      // thrown
       if (dim < 0) {
 	throw invalid_dimension("Negative array dimension requested"
 				ADEPT_EXCEPTION_LOCATION);
@@ -1511,6 +1509,10 @@ namespace adept {
 	clear();
       }
       else {
+	if (storage_) {
+	  storage_->remove_link();
+	  storage_ = 0;
+	}
 	dimension_ = dim;
 	offset_ = Engine::pack_offset(dim);
 	storage_ = new Storage<Type>(Engine::data_size(dimension_,offset_), IsActive);
